@@ -69,7 +69,8 @@ def augment(spec, rng, press_control=None, circ_loop=None, pi_valves=None, geoda
             ops.append(["create_junction", dict(pn_bar=p0, tfluid_k=t0, height_m=0., index=l)])
         pipe(x, y)
         ops.append(["create_pressure_control", dict(from_junction=a, to_junction=x, controlled_junction=y,
-                                                    controlled_p_bar=round(p0 * 0.75, 3), index=nxt("create_pressure_control"))])
+                                                    controlled_p_bar=round(p0 * 0.75, 3), check_controllability=False,
+                                                    index=nxt("create_pressure_control"))])
         ops.append(["create_sink", dict(junction=y, mdot_kg_per_s=scale * 0.2, index=nxt("create_sink"))])
     if (circ_loop if circ_loop is not None else rng.random() < 0.4) and not heat:
         f, m, r = _fresh(rng, usedj, js, 3)
@@ -99,6 +100,11 @@ def augment(spec, rng, press_control=None, circ_loop=None, pi_valves=None, geoda
     if t_ext_grid if t_ext_grid is not None else rng.random() < 0.15:
         ops.append(["create_ext_grid", dict(junction=rng.choice(js), p_bar=p0, t_k=t0, type="t",
                                             index=nxt("create_ext_grid"))])
+    if not heat and rng.random() < 0.5:
+        ops.append(["create_mass_storage", dict(junction=rng.choice(js), mdot_kg_per_s=scale * 0.1,
+                                                index=nxt("create_mass_storage"))])
+    if not heat and rng.random() < 0.4:
+        ops.append(["create_source", dict(junction=rng.choice(js), mdot_kg_per_s=scale * 0.1, index=nxt("create_source"))])
     if geodata if geodata is not None else rng.random() < 0.7:
         for fn, kw in ops:
             if fn == "create_junction" and rng.random() < 0.8:
